@@ -1,4 +1,4 @@
-CONSTANTS NT = 2 MaxW = 2 MaxE = 2 MaxR = 1 Buffer = TRUE Deviations = {"SecondEventReadsOriginal"}
+CONSTANTS NT = 2 MaxW = 2 MaxE = 2 MaxR = 1 Buffer = TRUE Deviations = {"SecondEventReadsOriginal"} Starts = {"main"}
 SPECIFICATION Spec
 INVARIANT NoLeak
 INVARIANT Complete
